@@ -67,7 +67,17 @@ pub fn parse_tag(i: &[u8]) -> nom::IResult<&[u8], StructureTag> {
 
             let mut tv: Vec<StructureTag> = Vec::new();
             while content.input_len() > 0 {
-                let (j, sub) = parse_tag(content)?;
+                // All the announced content is here, so an element which runs past its end is malformed,
+                // not incomplete: asking for more input would stall a streaming reader forever.
+                let (j, sub) = match parse_tag(content) {
+                    Err(nom::Err::Incomplete(_)) => {
+                        return Err(nom::Err::Error(Error::from_error_kind(
+                            content,
+                            ErrorKind::Complete,
+                        )))
+                    }
+                    res => res?,
+                };
                 content = j;
                 tv.push(sub);
             }
